@@ -445,7 +445,10 @@ impl QueryTask {
     }
 
     fn combined_limit(&self) -> usize {
-        (self.main_phase.limit.limit + self.main_phase.limit.offset) as usize
+        self.main_phase
+            .limit
+            .limit
+            .saturating_add(self.main_phase.limit.offset) as usize
     }
 }
 
